@@ -159,23 +159,28 @@ Section MapSpec.
   Context {V : Type}.
   Variable cd : cdesc V.
   Hypothesis attrs_nodup : NoDup (map fst (c_attrs cd)).
+  Hypothesis inv_consistent :
+    forall n a, attr_of cd n = Some a -> Some (builder_inv cd n a) = decl_inv cd n.
 
   (* the map the code builds contains exactly the declarations in force *)
   Lemma inv_map_spec k y :
     In (k, y) (inv_map V cd) <-> exists inv, decl_inv cd y = Some inv /\ In k inv.
   Proof.
     unfold inv_map, build_map. rewrite filter_all by reflexivity.
-    rewrite in_app_iff, levels_edges_spec. unfold decl_inv, attr_of, member_of, all_members.
-    split.
+    rewrite in_app_iff, levels_edges_spec. split.
     - intros [H|[Hn [m [A B]]]].
       + apply in_flat_map in H. destruct H as [[n a] [H1 H2]]. simpl in H2.
         apply In_edges_of in H2. destruct H2 as [-> H2].
-        rewrite (assoc_NoDup _ _ _ attrs_nodup H1). now exists (a_inv a).
-      + apply assoc_None in Hn. rewrite Hn, A. simpl. now exists (m_inv m).
-    - intros [inv [A B]]. destruct (assoc (c_attrs cd) y) as [a|] eqn:E.
-      + inversion A; subst. left. apply in_flat_map. exists (y, a). split; [now apply assoc_In|].
+        exists (builder_inv cd n a). split; [|exact H2].
+        symmetry. apply inv_consistent. unfold attr_of. now apply assoc_NoDup.
+      + apply assoc_None in Hn. unfold decl_inv, attr_of, member_of, all_members.
+        rewrite Hn, A. simpl. now exists (m_inv m).
+    - intros [inv [A B]]. destruct (attr_of cd y) as [a|] eqn:E.
+      + left. rewrite <- (inv_consistent _ _ E) in A. inversion A; subst.
+        apply in_flat_map. exists (y, a). split; [now apply assoc_In|].
         simpl. now apply In_edges_of.
-      + right. split; [now apply assoc_None|].
+      + right. unfold decl_inv in A. rewrite E in A. unfold attr_of in E.
+        split; [now apply assoc_None|]. unfold member_of, all_members in A.
         destruct (assoc (flat_map l_members (c_levels cd)) y) as [m|]; simpl in A; [|discriminate].
         inversion A; subst. now exists m.
   Qed.
@@ -405,7 +410,7 @@ Section Core.
       split; [reflexivity|]. apply andb_true_iff in Fz. destruct Fz as [F1 F2].
       apply negb_true_iff in F1. intros [?|?]; congruence.
     - destruct (default_of cd y) as [dv|] eqn:Df.
-      + destruct wf as [_ W]. destruct (W _ _ Df) as [W1 W2].
+      + destruct wf as [_ [W _]]. destruct (W _ _ Df) as [W1 W2].
         destruct (default_not_descriptor _ _ Df) as [D1 D2].
         unfold mutate_attr_gen in H. rewrite W1 in H. simpl in H. rewrite D2, W2 in H. simpl in H.
         unfold Model.raw_set in H. rewrite D1 in H. inversion H; subst.
@@ -454,9 +459,9 @@ Section Core.
 
   Lemma reach_mreach a y : reach cd a y <-> mreach (inv_map V cd) a y.
   Proof.
-    destruct wf as [ND _]. split; intro H; induction H; try constructor.
-    - eapply mreach_step; [eassumption|]. now apply targets_edge.
-    - eapply reach_step; [eassumption|]. now apply (targets_edge cd ND).
+    destruct wf as [ND [_ IC]]. split; intro H; induction H; try constructor.
+    - eapply mreach_step; [eassumption|]. now apply (targets_edge cd ND IC).
+    - eapply reach_step; [eassumption|]. now apply (targets_edge cd ND IC).
   Qed.
 
   (* utils/mutation.py:invalidate_attrs, inside the initializing window or on
@@ -472,7 +477,7 @@ Section Core.
     intro Hw. unfold Model.invalidate_attrs. destruct (inv_map V cd) as [|e0 m0] eqn:Em.
     - exists d. split; [reflexivity|]. split; [|auto].
       intros y R Hne. exfalso. apply Hne. induction R; [reflexivity|].
-      destruct wf as [ND _]. exfalso. eapply (inv_map_nil_no_edge cd ND Em); eauto.
+      destruct wf as [ND [_ IC]]. exfalso. eapply (inv_map_nil_no_edge cd ND IC Em); eauto.
     - rewrite <- Em.
       destruct (collect (S (S (length (inv_map V cd)))) (inv_map V cd) [a] [a] []) as [ys|] eqn:C.
       + assert (Hys : forall z, In z ys <-> mreach (inv_map V cd) a z /\ z <> a).
@@ -553,7 +558,7 @@ Section Entry.
     { destruct w; [now left|]. destruct (c_frozen cd); [discriminate | now right]. }
     destruct (default_of cd a) as [dv|] eqn:Df.
     - destruct (mutate_attr_spec _ _ _ _ _ _ _ _ _ H (or_intror Hw)) as [M1 M2].
-      split; [exact M1|]. intro He. destruct wf as [_ W]. destruct (W _ _ Df) as [W1 _].
+      split; [exact M1|]. intro He. destruct wf as [_ [W _]]. destruct (W _ _ Df) as [W1 _].
       destruct (M2 He W1) as [G [C U]]. split; [|tauto]. right. now exists dv.
     - destruct (raw_del V cd d a) as [e1 d1] eqn:R.
       destruct (raw_del_spec cd _ _ _ _ R) as [R1 [R2 R3]].
